@@ -18,10 +18,13 @@ type Scenario func() (main func(), monitor func(*Exec), check func(Result) error
 // non-default pick; otherwise only preemptions of a still-enabled running thread);
 // environment choices have their own budget MaxEnv (-1: unbounded).
 type Explorer struct {
-	Delay       bool
-	UseCache    bool
-	MaxDev      int // deviation / preemption budget
-	MaxEnv      int
+	Delay    bool
+	UseCache bool
+	MaxDev   int // deviation / preemption budget
+	MaxEnv   int
+	// EnvKinds, when non-nil, lists the environment choice kinds that are branched on; the others keep
+	// their default answer (e.g. branch on select cases and map order but not on every buffer-pool answer)
+	EnvKinds    map[string]bool
 	MaxSteps    int
 	Scenario    Scenario
 	ShardI      int // this worker explores sub-trees with index%ShardN == ShardI
@@ -172,6 +175,9 @@ func (x *Explorer) explore(prefix []int, depth int, owned bool) {
 	for i := len(prefix); i < len(res.Trace); i++ {
 		c := res.Trace[i]
 		if c.Frozen {
+			continue
+		}
+		if c.Kind != "thread" && x.EnvKinds != nil && !x.EnvKinds[c.Kind] {
 			continue
 		}
 		for alt := 1; alt < c.N; alt++ {
